@@ -168,3 +168,24 @@ def _(v):
     del f0.composition[0]
     v.prove("same_formula_again", f3.composition == {26: 1, 0: 3} and f0.composition == {26: 1} and f0.charge == 0 and (f0.latex_name, f0.unicode_name, f0.html_name) == ("Fe", "Fe", "Fe")
             and Substance.from_formula("Fe", charge=3).composition == {26: 1, 0: 3})
+
+
+@harness("C13", "printed_reactions.coefficients", functions=["chempy.printing.string:StrPrinter._Reaction_parts", "chempy.chemistry:Reaction.latex", "chempy.chemistry:Reaction.unicode", "chempy.chemistry:Reaction.html"], kind="data")
+def _(v):
+    """'coefficients written before the name and omitted when 1' for every kind of coefficient: 1 is omitted, every other value (2, 12, 0.5, 1.5, a
+    Fraction) is written, in all three formats, for reactions and equilibria, with the substances' format names"""
+    from fractions import Fraction
+    from chempy.chemistry import Reaction, Equilibrium, Substance
+    subs = {k: Substance.from_formula(k) for k in ("H2O2", "H2O", "O2", "Fe+3")}
+    bad = []
+    for cls, arrow in ((Reaction, {"latex": "\\rightarrow", "unicode": "→", "html": "&rarr;"}), (Equilibrium, {"latex": "\\rightleftharpoons", "unicode": "⇌", "html": "&harr;"})):
+        for coeff, shown in ((1, ""), (2, "2 "), (12, "12 "), (0.5, "0.5 "), (1.5, "1.5 "), (Fraction(1, 3), "1/3 ")):
+            r = cls({"H2O2": 1, "Fe+3": coeff}, {"H2O": 1, "O2": coeff}, checks=())
+            want = {"latex": "Fe^{3+} + H_{2}O_{2} %s H_{2}O + O_{2}", "unicode": "Fe³⁺ + H₂O₂ %s H₂O + O₂", "html": "Fe<sup>3+</sup> + H<sub>2</sub>O<sub>2</sub> %s H<sub>2</sub>O + O<sub>2</sub>"}
+            for fmt in ("latex", "unicode", "html"):
+                got = getattr(r, fmt)(subs)
+                names = {"latex": ("Fe^{3+}", "O_{2}"), "unicode": ("Fe³⁺", "O₂"), "html": ("Fe<sup>3+</sup>", "O<sub>2</sub>")}[fmt]
+                exp = "%s%s + %s %s %s + %s%s" % (shown, names[0], want[fmt].split(" + ")[1].split(" %s")[0], arrow[fmt], want[fmt].split("%s ")[1].split(" + ")[0], shown, names[1])
+                if got != exp:
+                    bad.append((cls.__name__, coeff, fmt, got, exp))
+    v.prove("one_is_omitted_everything_else_is_written", not bad, detail=repr(bad[:3]))
